@@ -100,7 +100,9 @@ fn check(case: &Case) -> Outcome {
     let mut insts: Vec<Inst> = vec![];
     let mut live: BTreeMap<(u8, u8), usize> = BTreeMap::new();
     // issued cookies: (cookie as the client holds it, instances already returned along its chain)
-    let mut cookies: Vec<(Cookie, BTreeSet<usize>)> = vec![];
+    // `tainted`: the cookie, or one of its ancestors in the chain, was issued for the empty namespace
+    // (whose wire encoding is indistinguishable from an all-namespaces cookie)
+    let mut cookies: Vec<(Cookie, BTreeSet<usize>, bool)> = vec![];
 
     let mut nt_refresh_at_limit = false;
     let mut nt_cookie_after_expiry = false;
@@ -217,7 +219,7 @@ fn check(case: &Case) -> Outcome {
                         ensure!(insts[i].ns == n, "C51:discover-wrong-namespace", d);
                     }
                     if seen.contains(&i) {
-                        let sig = if used.and_then(|c| cookies[c].0.namespace().cloned()).is_none() && ns.map(|n| NAMESPACES[n as usize].is_empty()).unwrap_or(false) {
+                        let sig = if used.map(|c| cookies[c].2).unwrap_or(false) {
                             "C51:cookie-forgotten-for-empty-namespace"
                         } else {
                             "C51:discover-repeated-with-cookie"
@@ -254,7 +256,11 @@ fn check(case: &Case) -> Outcome {
                 };
                 let mut s = seen;
                 s.extend(returned);
-                cookies.push((client_cookie, s));
+                let tainted = used.map(|c| cookies[c].2).unwrap_or(false) || ns.map(|n| NAMESPACES[n as usize].is_empty()).unwrap_or(false);
+                if tainted {
+                    labels.insert("cookie_chain_through_empty_namespace");
+                }
+                cookies.push((client_cookie, s, tainted));
             }
             Op::FireExpiry { inst } => {
                 if insts.is_empty() {
